@@ -633,7 +633,9 @@ def _main(ctx: Ctx, args) -> int:
     # module lists it under TABLES (harness/tables/<name>.py); for the others it is only a note
     for e in b.get("extract_errors", []):
         tname = e.split(".", 1)[0]
-        if tname in getattr(mod, "TABLES", []) or tname == "extract":
+        from harness.gen_main import _wiring
+        tabs = getattr(mod, "TABLES", None) or _wiring().get(prop.lower(), {}).get("tables", [])
+        if tname in tabs or tname == "extract":
             ctx.proof_break(f"translator could not regenerate table from the current source: {e}")
         else:
             ctx.note(f"translator error in a table this property does not use: {e[:200]}")
